@@ -247,12 +247,6 @@ def prepare_attributes(attrs, dyn_attributes, i18n_attributes,
         index = exact.get(
             name, normalized.get(name.lower())) if name else None
 
-        # A name that differs in case from an earlier name of the same
-        # clause is another attribute (it does not take its place).
-        if index is not None and attributes[index][5] is not None \
-           and attributes[index][0] != name:
-            index = None
-
         if index is not None:
             _, text, quote, space, eq, _ = attributes[index]
             add = attributes.__setitem__
